@@ -103,9 +103,30 @@ def outcome_parse(parser, text):
         return ("raised", type(e).__name__, str(e))
 
 
-def outcome_encode(encoder, spec):
+_SHARED = {}
+
+
+def build_shared(spec):
+    """Builds the module of *spec*; within one history a top-level block whose spec
+    was built before is the *same object* again (applications assemble several
+    labels from the same group objects)."""
+    from pvl.collections import PVLModule
+    items = []
+    for k, v in spec:
+        if isinstance(v, dict) and ("grp" in v or "obj" in v):
+            key = repr(v)
+            if key not in _SHARED:
+                _SHARED[key] = gv.build_value(v)
+            items.append((k, _SHARED[key]))
+        else:
+            items.append((k, gv.build_value(v)))
+    return PVLModule(items)
+
+
+def outcome_encode(encoder, spec, module=None):
     try:
-        return ("text", encoder.encode(gv.build_module(spec)))
+        return ("text", encoder.encode(gv.build_module(spec) if module is None
+                                       else module))
     except Exception as e:
         return ("raised", type(e).__name__, str(e))
 
@@ -134,6 +155,7 @@ def run_history(history):
     instances (and freshly imported CLI modules), so that a history is a complete,
     replayable reproduction."""
     _LONG.clear()
+    _SHARED.clear()
     importlib.reload(pv)
     importlib.reload(pt)
     inst = long_lived()
@@ -148,6 +170,12 @@ def run_history(history):
             _, e, spec = call
             a = outcome_encode(inst[("encoder", e)], spec)
             b = outcome_encode(make_encoder(e), spec)
+            who = f"encoder:{e}"
+        elif kind == "encode-shared":
+            _, e, spec = call
+            m = build_shared(spec)
+            a = outcome_encode(inst[("encoder", e)], spec, m)
+            b = outcome_encode(make_encoder(e), spec, m)
             who = f"encoder:{e}"
         elif kind == "decode":
             _, v, tok = call
@@ -237,6 +265,25 @@ def calls():
     )
 
 
+@st.composite
+def related_encodes(draw):
+    """Calls on one encoder whose modules are assembled from the same block objects:
+    the blocks alone, with an item that makes the encoder give up part-way before or
+    after them, with an OBJECT of their own, and as they are."""
+    e = draw(st.sampled_from(ENCODERS))
+    base = draw(c13.block_heavy(e))
+    blocks = [it for it in base if isinstance(it[1], dict)
+              and ("grp" in it[1] or "obj" in it[1])]
+    groups = [it for it in blocks if "grp" in it[1]]
+    bad = draw(st.sampled_from(c13.PROVOKERS))
+    variants = [base, blocks, groups, groups + bad, bad + groups, base + bad,
+                base + [["EXTRA_OBJECT", {"obj": [["Z", 1]]}]],
+                groups + [["EXTRA_OBJECT", {"obj": [["Z", 1]]}]], blocks[:1]]
+    variants = [v for v in variants if v]
+    picks = draw(st.lists(st.sampled_from(variants), min_size=2, max_size=6))
+    return [("encode-shared", e, p) for p in picks]
+
+
 def nontrivial(history):
     seen_bad = set()
     for call in history:
@@ -259,7 +306,9 @@ def random_histories(acc, n, seed):
     @hseed(seed)
     @settings(max_examples=n, database=None, deadline=None,
               phases=[Phase.generate], suppress_health_check=list(HealthCheck))
-    @given(st.lists(calls(), min_size=2, max_size=12))
+    @given(st.one_of(st.lists(calls(), min_size=2, max_size=12),
+                     st.lists(calls(), min_size=2, max_size=12),
+                     st.lists(calls(), min_size=2, max_size=12), related_encodes()))
     def body(history):
         if acc.expired():
             acc.notes["budget_exhausted"] = 1
